@@ -6,6 +6,7 @@ CONSTANTS
   Monitor = FALSE
   UserCancels = FALSE
   EagerUser = TRUE
+  ResubFlags = {}
   Log = TRUE
   FaultKinds = {}
   MaxFaults = 0
